@@ -171,6 +171,36 @@ theorem C07_gen_pipeline_transparent (g g' : Gen.Router) (ord : List Bytes → L
   rw [quickPure_caching_irrelevant o rs true cap, quickPure_caching_irrelevant o rs false cap]
 
 
+/-- **C03 (the routing tables are read-only after registration) on the composed pipeline**: serving a request with
+    the generated `QuickMatch` / `match` / `findAllowedMethods` leaves the options and the three routing tables exactly
+    as they were — the only shared state a request changes is the route cache (the part behind the RW mutex), and it
+    stays coherent.  Requests therefore cannot influence each other through the tables, whatever their order. -/
+theorem C03_gen_pipeline_tables_readonly (g : Gen.Router) (ord : List Bytes → List Bytes)
+    (hord : ∀ l, (ord l).length = l.length) (rt : RouterM) (hg : GenRel g rt.opts) (hc : CacheOK rt)
+    (m p : Bytes) (hm : (0x2F : Nat) ∉ m) :
+    ∃ rt' res, Gen.Router.QuickMatch g m p (envG g ord) rt = .ok (rt', res) ∧ SameTables rt rt' ∧ CacheOK rt' := by
+  refine ⟨_, _, tie_pipeline g ord rt hg.opts hg.caching anyMethods_nodup hord m p, ?_, ?_⟩
+  · exact (quickMatch_spec rt m p hm hc).2.1
+  · exact (quickMatch_spec rt m p hm hc).2.2
+
+/-- … and so the answer to a request does not depend on which requests were served before it, in whatever order
+    (any two histories, e.g. two interleavings of the same concurrent requests, followed by the same request) -/
+theorem C03_gen_pipeline_history_independent (g : Gen.Router) (ord : List Bytes → List Bytes)
+    (hord : ∀ l, (ord l).length = l.length) (o : Opts) (rs : List RouteM) (hg : GenRel g o)
+    (h1 h2 : List (Bytes × Bytes)) (m p : Bytes)
+    (hm1 : ∀ mp ∈ h1, (0x2F : Nat) ∉ mp.1) (hm2 : ∀ mp ∈ h2, (0x2F : Nat) ∉ mp.1) (hm : (0x2F : Nat) ∉ m) :
+    (genRunPipe g ord (build o rs) (h1 ++ [(m, p)])).getLast? =
+      (genRunPipe g ord (build o rs) (h2 ++ [(m, p)])).getLast? := by
+  rw [C06_gen_pipeline_history g ord hord o rs hg (h1 ++ [(m, p)]) (by
+        intro mp hmp; rcases List.mem_append.mp hmp with h | h
+        · exact hm1 mp h
+        · simp at h; subst h; exact hm),
+      C06_gen_pipeline_history g ord hord o rs hg (h2 ++ [(m, p)]) (by
+        intro mp hmp; rcases List.mem_append.mp hmp with h | h
+        · exact hm2 mp h
+        · simp at h; subst h; exact hm)]
+  simp
+
 /-- **C01 on the composed pipeline**: the table is built by registering ANY accepted list of definitions (model of
     registration), the request is served by the generated code: whenever the specification selects a route for the
     method and the normalised path (the static route registered last for exactly this path, else the first registered
